@@ -24,7 +24,7 @@
    convert.rs:787-890 convert_string (no format/validation) KStr
    convert.rs:892-967 convert_enum_string                 KEnum  (+ Sanitize.variants =
                                                           type_entry.rs:240-287 from_metadata)
-   convert.rs:969-1190 convert_integer (no bounds)        KInt via int_format_type
+   convert.rs:969-1190 convert_integer (no default)       KInt via choose_int (int_rows, ibounds_of)
    convert.rs:1193-1214 convert_number (no format)        KNum
    convert.rs:1218 convert_null, 1887 convert_bool,
    convert.rs:1894 convert_permissive                     KNull, KBool, KAny / SBool true
@@ -76,15 +76,109 @@ Definition s_i64 : ustring := ulit "i64".
 Definition s_f64 : ustring := ulit "f64".
 Definition s_map_type : ustring := ulit ":: std :: collections :: HashMap".
 
-(* convert.rs:995-1068: JSON Schema format -> Rust type (the column used when
-   there is no bound: `min == Some(1.)` is false, valid_min/valid_max hold) *)
-Definition int_format_type : list (ustring * ustring) :=
-  [ (ulit "int8", ulit "i8"); (ulit "uint8", ulit "u8");
-    (ulit "int16", ulit "i16"); (ulit "uint16", ulit "u16");
-    (ulit "int", ulit "i32"); (ulit "int32", ulit "i32");
-    (ulit "uint", ulit "u32"); (ulit "uint32", ulit "u32");
-    (ulit "int64", ulit "i64"); (ulit "uint64", ulit "u64") ].
 Close Scope string_scope.
+
+(* ------------------------------------------------------------------ integer selection
+   convert.rs:969-1190 convert_integer without a default value, on INTEGER bounds (the exact meaning
+   of the f64 operations when every bound is a "safe" double, as Algo/IntSelectZ.v; the table and the
+   function are proved equal to IntSelectZ.int_formats_Z / choose_integer_Z in
+   Proofs/ConvertIntTie.v - that file, and only that file, inherits Flocq's axioms). *)
+Record irow := mkIrow { ir_fmt : ustring; ir_ty : ustring; ir_nz : ustring; ir_lo : Z; ir_hi : Z }.
+
+Open Scope string_scope.
+Open Scope Z_scope.
+Definition int_rows : list irow :=
+  [ mkIrow (ulit "int8") (ulit "i8") (ulit "::std::num::NonZeroU8") (-128) 127;
+    mkIrow (ulit "uint8") (ulit "u8") (ulit "::std::num::NonZeroU8") 0 255;
+    mkIrow (ulit "int16") (ulit "i16") (ulit "::std::num::NonZeroU16") (-32768) 32767;
+    mkIrow (ulit "uint16") (ulit "u16") (ulit "::std::num::NonZeroU16") 0 65535;
+    mkIrow (ulit "int") (ulit "i32") (ulit "::std::num::NonZeroU32") (-2147483648) 2147483647;
+    mkIrow (ulit "int32") (ulit "i32") (ulit "::std::num::NonZeroU32") (-2147483648) 2147483647;
+    mkIrow (ulit "uint") (ulit "u32") (ulit "::std::num::NonZeroU32") 0 4294967295;
+    mkIrow (ulit "uint32") (ulit "u32") (ulit "::std::num::NonZeroU32") 0 4294967295;
+    (* `i64::MAX as f64` = 2^63 and `u64::MAX as f64` = 2^64: the limits the code compares with *)
+    mkIrow (ulit "int64") (ulit "i64") (ulit "::std::num::NonZeroU64") (-9223372036854775808) 9223372036854775808;
+    mkIrow (ulit "uint64") (ulit "u64") (ulit "::std::num::NonZeroU64") 0 18446744073709551616 ].
+Definition s_u64 : ustring := ulit "u64".
+Definition s_uint64 : ustring := ulit "uint64".
+Close Scope string_scope.
+
+Record ibounds := mkIb { ib_min : option Z; ib_max : option Z; ib_emin : option Z; ib_emax : option Z;
+                         ib_mult : bool }.
+
+(* x + 1.0 / x - 1.0 on integral doubles (round to nearest even beyond 2^53) *)
+Definition iadd1 (z : Z) : Z := if (- 2^53 <=? z) && (z <? 2^53) then z + 1 else z.
+Definition isub1 (z : Z) : Z := if (- 2^53 <? z) && (z <=? 2^53) then z - 1 else z.
+
+Definition inorm_min (b : ibounds) : option Z :=
+  match ib_min b, ib_emin b with
+  | None, None => None
+  | None, Some v => Some (iadd1 v)
+  | Some v, None => Some v
+  | Some m, Some e => Some (Z.max m (iadd1 e))
+  end.
+Definition inorm_max (b : ibounds) : option Z :=
+  match ib_max b, ib_emax b with
+  | None, None => None
+  | None, Some v => Some (isub1 v)
+  | Some v, None => Some v
+  | Some m, Some e => Some (Z.min m (isub1 e))
+  end.
+
+Fixpoint find_map' {A B} (f : A -> option B) (l : list A) : option B :=
+  match l with [] => None | x :: r => match f x with Some y => Some y | None => find_map' f r end end.
+
+(* convert.rs:1130-1167 *)
+Definition ifit (mn mx : option Z) : option ustring :=
+  match mn, mx with
+  | None, Some hi =>
+      find_map' (fun r => if (ir_hi r =? hi) && (ir_lo r <=? - 2^63) then Some (ir_ty r) else None) (rev int_rows)
+  | Some lo, None =>
+      find_map' (fun r => if lo =? 1 then Some (ir_nz r)
+                          else if (ir_lo r =? lo) && (ir_hi r >=? 2^63) then Some (ir_ty r) else None) (rev int_rows)
+  | Some lo, Some hi =>
+      find_map' (fun r => if lo =? 1 then Some (ir_nz r)
+                          else if (ir_hi r =? hi) && (ir_lo r =? lo) then Some (ir_ty r) else None) (rev int_rows)
+  | None, None => None
+  end.
+
+(* convert.rs:1170-1189 *)
+Definition igeneral (fmt : option ustring) (mn mx : option Z) : ustring :=
+  match ifit mn mx with
+  | Some ty => ty
+  | None => if match fmt with Some f => ustr_eqb f s_uint64 | None => false end then s_u64 else s_i64
+  end.
+
+Definition choose_int (fmt : option ustring) (b : ibounds) : ustring :=
+  let mn := inorm_min b in
+  let mx := inorm_max b in
+  match match fmt with Some f => find (fun r => ustr_eqb (ir_fmt r) f) int_rows | None => None end with
+  | Some r =>
+      let valid_min := match mn with None => true | Some m => m >=? ir_lo r end in
+      let valid_max := match mx with None => true | Some m => m <=? ir_hi r end in
+      if negb (ib_mult b) && valid_min && valid_max then
+        if match mn with Some v => v =? 1 | None => false end then ir_nz r else ir_ty r
+      else igeneral fmt (match mn with None => Some (ir_lo r) | _ => mn end)
+                        (match mx with None => Some (ir_hi r) | _ => mx end)
+  | None => igeneral fmt mn mx
+  end.
+
+(* the numeric keywords of a schema as integer bounds: every bound must be an integer literal whose
+   double is exact ("safe": |z| <= 2^53, or +-2^63, 2^64); otherwise the node is outside the fragment *)
+Definition q_int (q : Q) : option Z := if (Qden q =? 1)%positive then Some (Qnum q) else None.
+Definition safe_int (z : Z) : bool :=
+  (Z.abs z <=? 2^53) || (z =? - 2^63) || (z =? 2^63) || (z =? 2^64).
+Definition obound (o : option Q) : option (option Z) :=     (* None = not acceptable *)
+  match o with
+  | None => Some None
+  | Some q => match q_int q with Some z => if safe_int z then Some (Some z) else None | None => None end
+  end.
+Definition ibounds_of (nv : numv) : option ibounds :=
+  match obound (n_minimum nv), obound (n_maximum nv), obound (n_exclusive_minimum nv), obound (n_exclusive_maximum nv) with
+  | Some a, Some b, Some c, Some d => Some (mkIb a b c d (match n_multiple_of nv with Some _ => true | None => false end))
+  | _, _, _, _ => None
+  end.
+Close Scope Z_scope.
 
 Definition c_slash : N := 47.
 Definition c_uscore : N := 95.
@@ -275,11 +369,8 @@ Section Classify.
     | TNull => if is_none fmt && is_none enum && no_array && no_object && no_num && no_str && no_len then Some KNull else None
     | TNumber => if is_none fmt && is_none enum && no_array && no_object && no_num && no_str && no_len then Some KNum else None
     | TInteger =>
-        if is_none enum && no_array && no_object && no_num && no_str && no_len then
-          match fmt with
-          | None => Some (KInt s_i64)
-          | Some f => option_map KInt (assoc f int_format_type)
-          end
+        if is_none enum && no_array && no_object && no_str && no_len then
+          option_map (fun b => KInt (choose_int fmt b)) (ibounds_of nv)
         else None
     | TString =>
         if is_none fmt && no_array && no_object && no_num && no_len then
